@@ -268,7 +268,27 @@ def r12_5(ctx):
            'raise self._value.exception only when not successful')
 
 
+
+def r12_10(ctx):
+    ctx.rule('R12.10', 'the failure record keeps the exception object it was given: the value taken out of the exc_info '
+                       'triple is what is formatted and what is stored, never a re-made instance', floor=1)
+    m = ctx.model
+    fi = m.func('einfo:ExceptionInfo.__init__')
+    unp = [n for n in walk_own(fi.node) if isinstance(n, ast.Assign) and isinstance(n.targets[0], ast.Tuple)
+           and len(n.targets[0].elts) == 3 and 'exc_info' in ast.unparse(n.value)]
+    q.need(unp, 'ExceptionInfo.__init__: unpacking of the exc_info triple not found')
+    ex = unp[0].targets[0].elts[1]
+    q.need(isinstance(ex, ast.Name), 'ExceptionInfo.__init__: the exception is not bound to a local')
+    defs = [(dn, v) for (dn, t, v) in q.assigns(fi, ex.id)]
+    extra = [(dn, v) for (dn, v) in defs if dn.ast is not unp[0]]
+    ctx.ob('R12.10', 'ExceptionInfo.__init__:exception-object-as-given', not extra, fi, extra[0][0] if extra else unp[0],
+           '`%s` is bound once, by unpacking the triple' % ex.id if not extra else
+           '`%s` is re-made (`%s`): arguments and attributes of the original exception are lost, and a constructor that '
+           'does not accept them raises inside the worker\'s error path' % (ex.id, ast.unparse(extra[0][1] or extra[0][0].ast)[:70]))
+
+
 def run(ctx):
+    r12_10(ctx)
     r12_1(ctx, modules=('einfo', 'pool'), floor=6)
     r12_2(ctx)
     r12_3(ctx)
@@ -292,6 +312,7 @@ def run(ctx):
 _E ='billiard/einfo.py'
 _P = 'billiard/pool.py'
 MUTANTS = [
+    ('record-remakes-the-exception', 'billiard/einfo.py', "        self.type, exception, tb = exc_info or sys.exc_info()\n", "        self.type, exception, tb = exc_info or sys.exc_info()\n        if not isinstance(exception, Exception):\n            exception = self.type(exception)\n", 'R12.10'),
     ('failure-record-without-the-outer-frame', _P, "                        result = (False, ExceptionInfo())\n",
      "                        result = (False, ExceptionInfo((type(exc), exc, exc.__traceback__.tb_next)))\n", 'R12.8'),
     ('positions-table-cut-at-f_lasti', _E, "            self._co_positions = list(code.co_positions())\n",
